@@ -357,7 +357,7 @@ func runC01(c *Ctx) {
 		c.St.Eval(t.Token(), t.Depth() >= 1 && hasNonInt(t))
 		c.St.Count(fmt.Sprintf("tree_depth_%d", t.Depth()))
 	}
-	c.fileStratum(20)
+	c.fileStratum("C01", 20)
 }
 
 func hasNonInt(t *Tree) bool {
@@ -604,7 +604,7 @@ func runC03(c *Ctx) {
 		c.parseLine('L', "[ "+n+" , "+n+"\n]", "valid")
 		c.St.Eval("num:"+n, true)
 	}
-	c.fileStratum(20)
+	c.fileStratum("C03", 20)
 }
 
 // ---------------------------------------------------------------- C04
@@ -737,7 +737,7 @@ func runC04(c *Ctx) {
 	}
 	c.escapeCorners()
 	// ParseFile
-	c.fileStratum(c.N(100, 1000))
+	c.fileStratum("C04", c.N(100, 1000))
 }
 
 // escapeCorners: escapes the strict grammar rejects or that denote no Unicode string (truncated \u, bad hex, lone
@@ -763,7 +763,11 @@ func (c *Ctx) escapeCorners() {
 // parseFile says (checked by the driver).  Deterministic documents first: sizes beyond every buffer a reader
 // might use, blank space / text before and after the root, line endings, a byte-order mark, ill-formed bytes;
 // then nRandom random ones.
-func (c *Ctx) fileStratum(nRandom int) {
+func (c *Ctx) fileStratum(prop string, nRandom int) {
+	// what each property speaks about: C01 / C03 — documents that are valid (or at least denote a value for the lenient
+	// reader); C20 — also documents with an error on a known line; C04 — everything, ill-formed bytes included
+	onlyValid := prop == "C01" || prop == "C03"
+	withIllFormed := prop == "C04"
 	r := c.R
 	opts := &TreeOpts{MaxDepth: 3, MaxWidth: 4}
 	dir, err := os.MkdirTemp("", "vharness")
@@ -805,6 +809,14 @@ func (c *Ctx) fileStratum(nRandom int) {
 	}
 	n := 0
 	put := func(content string) {
+		if onlyValid {
+			if !utf8.ValidString(content) || !strings.HasPrefix(onceParse('O', content), "ok ") {
+				return // judged by the implementation's own ParseObject: the monitor is ParseFile == ParseObject on these
+			}
+		}
+		if !withIllFormed && !utf8.ValidString(content) {
+			return
+		}
 		p := filepath.Join(dir, "f"+strconv.Itoa(n)+".json")
 		n++
 		os.WriteFile(p, []byte(content), 0o644)
@@ -883,8 +895,10 @@ func (c *Ctx) fileStratum(nRandom int) {
 		}
 		put(content)
 	}
-	fileLine("missing", "", filepath.Join(dir, "does-not-exist.json"))
-	fileLine("dir", "", dir)
+	if !onlyValid {
+		fileLine("missing", "", filepath.Join(dir, "does-not-exist.json"))
+		fileLine("dir", "", dir)
+	}
 }
 
 // ---------------------------------------------------------------- C07
@@ -1406,7 +1420,7 @@ func runC20(c *Ctx) {
 			c.fn("parse", "O", hex.EncodeToString([]byte(text)), res, "line:"+strconv.Itoa(line))
 		}
 	}
-	c.fileStratum(50)
+	c.fileStratum("C20", 50)
 }
 
 // ---------------------------------------------------------------- stdlib conformance
